@@ -507,6 +507,47 @@ func dpCmd(args []string) {
 				q.Expr = e2
 			}
 			pr("HQ %s.b %s\n", qid, execQuery(h.ix, q))
+		case "QMOD":
+			// one *updog.Query executed, then modified by the caller (tree rewritten in place,
+			// group-by list replaced / cleared, value copy) and executed again (C08)
+			qid, ds, writer, mode := t.next(), t.next(), t.next(), t.next()
+			e1 := t.expr()
+			rdgb := func() []string {
+				if t.next() != "GB" {
+					fatal("expected GB")
+				}
+				m := t.int()
+				var gb []string
+				for j := 0; j < m; j++ {
+					gb = append(gb, t.str())
+				}
+				return gb
+			}
+			gb1 := rdgb()
+			if t.next() != "THEN" {
+				fatal("expected THEN")
+			}
+			e2 := t.expr()
+			gb2 := rdgb()
+			ix, oc := s.index(ds, writer, mode)
+			if ix == nil {
+				for j := 0; j < 4; j++ {
+					pr("QM %s.%d %s\n", qid, j, oc)
+				}
+				continue
+			}
+			q := &updog.Query{Expr: e1, GroupBy: gb1}
+			pr("QM %s.0 %s\n", qid, execQuery(ix, q))
+			if !morph(q.Expr, e2) {
+				q.Expr = e2
+			}
+			q.GroupBy = gb2
+			pr("QM %s.1 %s\n", qid, execQuery(ix, q))
+			q2 := *q
+			q2.GroupBy = nil
+			pr("QM %s.2 %s\n", qid, execQuery(ix, &q2))
+			q.GroupBy = gb1
+			pr("QM %s.3 %s\n", qid, execQuery(ix, q))
 		case "QVAL":
 			// one *updog.Query value executed on several indexes in sequence (C08)
 			qid := t.next()
@@ -562,6 +603,18 @@ func dpCmd(args []string) {
 				continue
 			}
 			pr("SCHEMA %s %s\n", qid, fmtSchema(sch))
+		case "RAWKEYS":
+			qid, ds, writer := t.next(), t.next(), t.next()
+			s.rawKeys(qid, ds, writer)
+		case "CURSOR":
+			qid := t.next()
+			n := t.int()
+			pairs := make([][2]uint64, n)
+			for i := range pairs {
+				pairs[i][0] = t.u64()
+				pairs[i][1] = t.u64()
+			}
+			s.cursorOrder(qid, pairs)
 		case "IDS":
 			qid, ds, writer := t.next(), t.next(), t.next()
 			b := s.build(ds, writer)
